@@ -129,7 +129,7 @@ func (m *MTree) replace(s Site, n *refcbor.Item) {
 	}
 }
 
-var structFaultKinds = []string{"arr2bstr", "digitstr", "rewidth", "typeswap", "elemswap", "bucketmove", "dupkey", "nilswap", "tagwrap", "untag", "indef",
+var structFaultKinds = []string{"algtext", "arr2bstr", "digitstr", "rewidth", "typeswap", "elemswap", "bucketmove", "dupkey", "nilswap", "tagwrap", "untag", "indef",
 	"keyreorder", "unprot-edit", "arity", "emptybstr", "intedit", "strgrow", "param-inject"}
 
 func pickSite(t *tape.Tape, sites []Site, ok func(Site) bool) (Site, bool) {
@@ -491,6 +491,28 @@ func StructFault(t *tape.Tape, in []byte, kind string) (out []byte, applied stri
 			n = refcbor.Int(int64(s.It.Arg%1000) + 1)
 		}
 		m.replace(s, n)
+	case "algtext":
+		// the alg parameter of a protected header respelt as the registered
+		// NAME of the algorithm (a text string is a legal alg value; this
+		// library has no built-in algorithm for any name)
+		s, found := pickSite(t, sites, func(s Site) bool {
+			if !s.Inner || s.Parent == nil || s.Parent.Major != refcbor.MMap || s.Idx%2 != 1 || !s.It.IsInt() {
+				return false
+			}
+			k := s.Parent.Elems[s.Idx-1]
+			kv, ok := k.Int64()
+			return k.IsInt() && ok && kv == 1
+		})
+		if !found {
+			return nil, "", false
+		}
+		names := map[int64]string{-7: "ES256", -35: "ES384", -36: "ES512", -8: "EdDSA", -37: "PS256", -38: "PS384", -39: "PS512"}
+		v, _ := s.It.Int64()
+		name, ok := names[v]
+		if !ok {
+			name = "X" + strconv.FormatInt(v, 10)
+		}
+		m.replace(s, refcbor.Tstr(name))
 	case "arr2bstr":
 		// an array of small unsigned integers replaced by the byte string of
 		// the same numbers (what a decoder hands to Go as []byte looks like a
